@@ -849,8 +849,8 @@ func specPreorderAll(roots []*Node, i int) []*Node {
 //@   requires start: rg.scanner.pos == 0 && len(lnNodes) == 0
 //@   modifies Node.children, Node.parent, list.List.view, list.Element.backOf, rg.counter.n, rg.scanner.pos, rg.scanner.failed, rg.nodeGenerator.parser.isSharpRoot, rg.nodeGenerator.parser.spaces, rg.nodeGenerator.parser.sep, lnNodes
 //@   after generate: lnNodes := (result0 == nil && result1 == nil) ? lnNodes ++ seqof(nil) : lnNodes
-//@   after push: lnNodes := lnNodes ++ seqof(currentNode)
-//@   after dfs: lnNodes := result ? lnNodes ++ seqof(as(last(stack.nodes.view), Node)) : lnNodes
+//@   after push: lnNodes := lnNodes ++ seqof(arg0)
+//@   after dfs: lnNodes := result ? lnNodes ++ seqof(as(last(recv.nodes.view), Node)) : lnNodes
 //@   ensures roots [C01,C12]: result1 == nil ==> (forall k int :: {result0[k]} 0 <= k && k < len(result0) ==> result0[k] != nil && result0[k].hierarchy == 1)
 //@   ensures readerr [C14]: rg.scanner.failed ==> result1 != nil
 //@   ensures consumed [C02]: result1 == nil ==> rg.scanner.pos == len(rg.scanner.lines) && !rg.scanner.failed
@@ -1039,8 +1039,8 @@ func lemmaRawAllIsRenderAll(last, mid branchFormat, roots []*Node, i int) {
 //@   requires ok: genOK(rg)
 //@   requires init: stack == nil && root == nil && rg.scanner.pos == 0
 //@   after generate: lnNodes := (result0 == nil && result1 == nil) ? lnNodes ++ seqof(nil) : lnNodes
-//@   after push: lnNodes := lnNodes ++ seqof(currentNode)
-//@   after dfs: lnNodes := result ? lnNodes ++ seqof(as(last(stack.nodes.view), Node)) : lnNodes
+//@   after push: lnNodes := lnNodes ++ seqof(arg0)
+//@   after dfs: lnNodes := result ? lnNodes ++ seqof(as(last(recv.nodes.view), Node)) : lnNodes
 //@   modifies lnNodes, Node.children, Node.parent, list.List.view, list.Element.backOf, counter.n, bufio.Scanner.pos, bufio.Scanner.failed, markdown.Parser.isSharpRoot, markdown.Parser.spaces, markdown.Parser.sep, Node.brnch.value, Node.brnch.path, out, wfail, defaultSpreaderSimple.w, rsRoots, rsFailed, rsStopped, rsErr, gsRoots, gsFailed, gsStopped, gsErr, spRoots, spText, esFailed, encTrace, encoders
 //@ loop gtree.rootGeneratorSimple.generateIter#1#1
 //@   invariant ok: genOK(rg)
